@@ -460,3 +460,19 @@ def regen_small(c, which):
     t = "translator/pyinterp.py + gen_small.py (fail-closed definitional interpreter; sqlglot's parser / identifier quoting and `re` are scripted; validated against CPython each run)"
     if t not in c.trusted:
         c.trusted.append(t)
+
+
+def regen_cte(c):
+    """Gen/CteShape_gen.v (what _build_model_cte projects on 476 scripted worlds x queries): regenerate and validate the interpreter against CPython."""
+    from translator import gen_cte
+    try:
+        write_if_changed(os.path.join(COQ, "Gen", "CteShape_gen.v"), gen_cte.generate(REPO))
+        c.obligation("translator: projection of a model CTE (_build_model_cte with _find_needed_dimensions, 476 scripted worlds x queries) regenerated (Gen/CteShape_gen.v)", True, "translator")
+        same = gen_cte.table(REPO) == gen_cte.table(REPO, real=True)
+        c.obligation("translator validation: interpreted _build_model_cte == the real method under CPython on the same scripted worlds", same, "translator")
+    except Exception as e:
+        c.obligation("translator: projection of a model CTE (_build_model_cte) regenerated (Gen/CteShape_gen.v)", False, "translator", repr(e)[-900:])
+    t = ("translator/pyinterp.py + gen_cte.py (fail-closed definitional interpreter; the model / relationship / metric objects, sqlglot's parser and printer, sql_has_aggregate, "
+         "_quote_alias, _quote_identifier, _date_trunc and _join_conjuncts are scripted; the text -> (items, FROM, WHERE) splitter is trusted; validated against CPython each run)")
+    if t not in c.trusted:
+        c.trusted.append(t)
